@@ -1092,7 +1092,10 @@ impl RawAutomaton {
             })
             .max()
             .unwrap_or(0);
-        let base = self.determinise(false, alphabet_size).minimise(alphabet_size);
+        // (dead states are removed first: they must not take part in the
+        // output-determinism test below)
+        let base =
+            self.remove_dead_states().determinise(false, alphabet_size).minimise(alphabet_size);
 
         let mut transitions =
             FxHashMap::with_capacity_and_hasher(base.transitions.len(), FxBuildHasher);
